@@ -283,7 +283,7 @@ RegProps(reg2, isSearch) ==
     ELSE NoRes >>)
 
 TvReg ==
-  /\ E.op \in {"r_create", "r_destroy", "r_add", "r_limit", "r_markers", "r_search"}
+  /\ E.op \in {"r_create", "r_destroy", "r_add", "r_limit", "r_markers", "r_search", "r_clear"}
   /\ LET valid == IF E.op = "r_create" THEN ~Known(reg, E.id) ELSE Known(reg, E.id) IN
      IF ~valid \/ Has(E, "panic")
        THEN /\ Step(IF valid THEN Chk(FALSE, l, "C01", "top-level call panicked") ELSE Res(<<>>, <<"ood">>), st, <<>>)
@@ -294,6 +294,7 @@ TvReg ==
                     [] E.op = "r_add"     -> R_Add(reg, E.id, E.rid, E.title, E.rating, [chars |-> <<>>, words |-> <<>>])
                     [] E.op = "r_limit"   -> R_SetLimit(reg, E.id, E.limit)
                     [] E.op = "r_markers" -> R_Markers(reg, E.id, E.l, E.r)
+                    [] E.op = "r_clear"   -> R_Clear(reg, E.id)
                     [] E.op = "r_search"  -> PutId(reg, E.id, [reg[E.id] EXCEPT !.buf = IF E.id \in BufIds THEN BufOf(E.id) ELSE <<>>])
             IN /\ Step(RegProps(reg2, E.op = "r_search"), st, <<>>)
                /\ reg' = reg2
